@@ -479,6 +479,99 @@ func runC14(c *core.Ctx) core.Meta {
 		}
 	}
 
+	// R14.6 (continued): every barrier release inside the pass is followed by the purge, whichever instruction caused it.
+	// A callee that releases the barrier reports it through a constant-true result; the pass tests that result and purges.
+	if fn := c.SSAFunc(cuPkg, "SchedulerImpl.EvaluateInternalInst"); fn != nil {
+		g := core.BuildGraph(fn, 0, nil)
+		isPurge := func(n *core.Node) bool {
+			f := core.CalleeFunc(n.Instr)
+			return f != nil && f.Name() == "removeAllWfFromInternalExecuting"
+		}
+		for _, callee := range pcu.Funcs {
+			if !strings.HasPrefix(callee.Name(), "eval") {
+				continue
+			}
+			// does it release a barrier?
+			gc := core.BuildGraph(callee, 0, nil)
+			for _, pn := range gc.Nodes {
+				f := core.CalleeFunc(pn.Instr)
+				if f == nil || f.Name() != "passBarrier" {
+					continue
+				}
+				st6.Instances++
+				where := core.FuncName(callee)
+				// the result index that is constant true on every return after the release
+				flag := -1
+				okFlag := true
+				after, _ := gc.Reach(core.After(pn, nil), core.WalkOpts{ForwardOnly: true})
+				for m := range after {
+					r, isR := m.Instr.(*ssa.Return)
+					if !isR {
+						continue
+					}
+					found := -1
+					for i := len(r.Results) - 1; i >= 0; i-- {
+						if bv, isC := core.ConstBool(r.Results[i]); isC && bv && i >= 2 {
+							found = i
+							break
+						}
+					}
+					if found < 0 || (flag >= 0 && flag != found) {
+						okFlag = false
+					}
+					flag = found
+				}
+				leak := !okFlag || flag < 0
+				if !leak {
+					// in the pass: the call's Extract #flag decides an If whose true edge reaches a purge before the iteration ends
+					leak = true
+					for _, n := range g.Nodes {
+						call, ok := n.Instr.(*ssa.Call)
+						if !ok || call.Call.StaticCallee() != callee || call.Referrers() == nil {
+							continue
+						}
+						for _, r := range *call.Referrers() {
+							ex, ok := r.(*ssa.Extract)
+							if !ok || ex.Index != flag || ex.Referrers() == nil {
+								continue
+							}
+							for _, r2 := range *ex.Referrers() {
+								iff, ok := r2.(*ssa.If)
+								if !ok {
+									continue
+								}
+								for _, in2 := range g.Nodes {
+									if in2.Instr != ssa.Instruction(iff) {
+										continue
+									}
+									esc := false
+									g.Walk([]core.State{{N: in2.Succs[0]}}, core.WalkOpts{ForwardOnly: true, Stop: isPurge}, func(stt core.State) {
+										for _, sc := range stt.N.Succs {
+											if g.IsBack(stt.N, sc) {
+												esc = true
+											}
+										}
+										if _, isR := stt.N.Instr.(*ssa.Return); isR {
+											esc = true
+										}
+									})
+									if !esc {
+										leak = false
+									}
+								}
+							}
+						}
+					}
+				}
+				st6.Ob(!leak)
+				st6.Sample("barrier release in %s is reported to the pass, which purges the group from the internal-execution lists: %v", where, !leak)
+				if leak {
+					c.ReportAt("R14.6", callee, pn.Instr.Pos(), "release-without-purge:"+where, "the barrier release in "+where+" is not followed, within the same pass over the internally executing wavefronts, by the removal of the group's wavefronts from that list: wavefronts parked there (the barrier buffer was full) keep their s_barrier instruction, arrive at the barrier a second time and advance their PC twice")
+				}
+			}
+		}
+	}
+
 	// ---------------- R14.5 work-group completion once (R09.6) ----------------
 	st5 := c.Rule("R14.5", "the work-group completion message is built only where all other wavefronts of the group were found completed; the group's resources are released and the last wavefront marked completed only after the message was sent; a failed send is retried", 3)
 	isWGMsg := func(in ssa.Instruction) bool {
